@@ -75,7 +75,7 @@ func mk(s string) string { markN(3); return s }
 //go:noinline
 func w(depth, id int, l *zerolog.Logger, stdl *stdlog.Logger, j int) {
 	if depth == 0 {
-		site(id, l, stdl, j)
+		ch39(id, l, stdl, j) // 40 distinct frames, then the call site
 		return
 	}
 	w(depth-1, id, l, stdl, j)
@@ -218,7 +218,7 @@ func run(c *Case, shared *zerolog.Logger, out *rw) string {
 			want = 2 * j
 		}
 	}
-	if want > c.Depth+3 {
+	if want > c.Depth+chainDepth+3 {
 		return "" // the stack of this harness is not deep enough for the skip: not a case
 	}
 	if c.PanicBefore {
@@ -418,7 +418,7 @@ func TestDeepWrappers(t *testing.T) {
 		if !si.UsesJ || !(strings.HasSuffix(si.Name, "/Info/Msg") || strings.HasSuffix(si.Name, "/PkgInfo/Msg") || strings.HasSuffix(si.Name, "/Log/Send")) {
 			continue
 		}
-		for _, j := range []int{100, 127, 128, 129, 200, 255, 256, 257} {
+		for _, j := range []int{7, 13, 14, 15, 16, 17, 20, 31, 32, 33, 39, 100, 127, 128, 129, 200, 255, 256, 257} {
 			mech := "event"
 			if si.Kind == "context" {
 				mech = "ctx"
